@@ -181,9 +181,10 @@ def run(ctx) -> None:
     # graph object or the structures it caches (its input spec, its bound tables); the only writes are the lazy
     # memoisation of derived views inside the graph's own properties
     for f8 in template_methods(db, "run") + template_methods(db, "map") + execute_impl_funcs(db):
-        if "graph" not in f8.param_names:
-            raise AnalysisError(f"{f8.qname}: no 'graph' parameter")
-        ws = [e for e in E8.writes(f8, "graph", include_unknown=False) if not (e.kind == "write" and len(e.path) == 1 and "via property hypergraph.graph.core.Graph." in e.detail)]
+        gp8 = "graph" if "graph" in f8.param_names else next((a_.arg for a_ in f8.node.args.posonlyargs + f8.node.args.args + f8.node.args.kwonlyargs if a_.annotation is not None and src(a_.annotation).split("|")[0].strip().split(".")[-1] == "Graph"), None)
+        if gp8 is None:
+            raise AnalysisError(f"{f8.qname}: no graph parameter")
+        ws = [e for e in E8.writes(f8, gp8, include_unknown=False) if not (e.kind == "write" and len(e.path) == 1 and "via property hypergraph.graph.core.Graph." in e.detail)]
         rep.add("C18.R8", f"{f8.qname}:graph-state", not ws, f8.loc(), "the run path writes nothing into the graph (lazy property memos excepted)" if not ws else f"the run path changes the graph object: {fmt_effect(ws[0])} — what one run was given survives in the shared graph and reaches later (or concurrent) runs as if it had been bound")
 
     # ---- R2 ---------------------------------------------------------------------
